@@ -55,3 +55,45 @@ Section Pcbc.
     call_fn X pcbc__decrypt__IvState__Decryptor__iv_state [self] = Some (VBlk (pcbc_iv_state st), [self]).
   Proof. unfold call_fn, call_src. evf. reflexivity. Qed.
 End Pcbc.
+
+(* ---- C02 over the translated source: the whole block sequence ---------------------------------------- *)
+From BM Require Import BlockModes_proofs Spec.
+Section PcbcSource.
+  Variable C : cipher.
+  Variable n : nat.
+  Hypothesis E_len : forall x, length x = n -> length (c_E C x) = n.
+  Hypothesis D_len : forall x, length x = n -> length (c_D C x) = n.
+  Let X := bctx C [("xor", FSem xor_sem)] [].
+  Definition src_pcbc_enc_step (iv : block) (c : cell) : option (block * cell) :=
+    match call_fn X pcbc__encrypt__BlockModeEncBackend__Backend__encrypt_block [enc_self iv; VCell c] with
+    | Some (VUnit, [VStruct _ [("iv", VBlk iv'); _]; VCell c']) => Some (iv', c') | _ => None end.
+  Definition src_pcbc_dec_step (iv : block) (c : cell) : option (block * cell) :=
+    match call_fn X pcbc__decrypt__BlockModeDecBackend__Backend__decrypt_block [dec_self iv; VCell c] with
+    | Some (VUnit, [VStruct _ [("iv", VBlk iv'); _]; VCell c']) => Some (iv', c') | _ => None end.
+
+  Theorem C02_pcbc_enc_source s cs : length s = n -> Forall (fun c => length (rd_in c) = n) cs ->
+    fold_src src_pcbc_enc_step s cs
+    = Some (pcbc_chain s (map rd_in cs) (pcbc_enc_spec (c_E C) s (map rd_in cs)), map2 wr_out cs (pcbc_enc_spec (c_E C) s (map rd_in cs))).
+  Proof.
+    intros Hs Hcs.
+    rewrite (fold_src_ok src_pcbc_enc_step (pcbc_enc_block C) (fun st => length st = n) (fun c => length (rd_in c) = n)); auto.
+    - now rewrite pcbc_enc_fold.
+    - intros st c Hst Hc. unfold src_pcbc_enc_step, X.
+      assert (HEl : length (c_E C (xorb (rd_in c) st)) = n) by (apply E_len; rewrite xorb_length_eq; lia).
+      rewrite (tie_pcbc_encrypt_block C st c) by lia.
+      unfold pcbc_enc_block. cbn [fst]. split; [reflexivity|]. rewrite xorb_length_eq; lia.
+  Qed.
+
+  Theorem C02_pcbc_dec_source s cs : length s = n -> Forall (fun c => length (rd_in c) = n) cs ->
+    fold_src src_pcbc_dec_step s cs
+    = Some (pcbc_chain s (pcbc_dec_spec (c_D C) s (map rd_in cs)) (map rd_in cs), map2 wr_out cs (pcbc_dec_spec (c_D C) s (map rd_in cs))).
+  Proof.
+    intros Hs Hcs.
+    rewrite (fold_src_ok src_pcbc_dec_step (pcbc_dec_block C) (fun st => length st = n) (fun c => length (rd_in c) = n)); auto.
+    - now rewrite pcbc_dec_fold.
+    - intros st c Hst Hc. unfold src_pcbc_dec_step, X.
+      assert (HDl : length (c_D C (rd_in c)) = n) by (apply D_len; lia).
+      rewrite (tie_pcbc_decrypt_block C st c) by lia.
+      unfold pcbc_dec_block. cbn [fst]. split; [reflexivity|]. rewrite !xorb_length_eq; rewrite ?xorb_length_eq; lia.
+  Qed.
+End PcbcSource.
